@@ -239,6 +239,19 @@ def run_parity(ctx: Ctx) -> RuleResult:
                 res.finding(gfun, gfun.node, 'embedded user callbacks adapted by %s (for %s): %s' % (gname, guard_classes, why),
                             construct='embedded:callback-arg' + ('' if guard_classes == 'Transformer_InPlace' else '[%s]' % guard_classes))
         res.require_instances(n_adapt, 1, 'callback adapters in create_callback')
+        # precedence: a v_args wrapper decides the calling convention whatever the transformer class is (that is what
+        # Transformer._call_userfunc does: wrapper first); the arm applying it is conditioned on the wrapper only
+        from ..exprs import path_conditions
+        for asg, b_ in find_pat(nodes, '$f = apply_visit_wrapper($f, $$r1, $$r2)', {'f': fvar}):
+            conds = path_conditions(asg)
+            extra = [norm(t_) for t_, pol_ in conds if 'wrapper' not in norm(t_) and not isinstance(parent(asg), ast.Try)]
+            extra = [e_ for e_ in extra if 'visit_wrapper' not in e_]
+            ok = not extra
+            res.ob('%s %s' % (cc.module.loc(asg), cc.qual), 'the v_args wrapper is applied whenever there is one (conditions: %s)' % [norm(t_) for t_, _p in conds], ok)
+            if not ok:
+                res.finding(cc, asg, 'the v_args wrapper is only applied when %s: for those transformers a decorated callback is called with '
+                            'another convention embedded than by .transform()' % extra, construct='embedded:wrapper-precedence')
+
     # token callbacks travel from _get_lexer_callbacks to the parser's callback table unadapted
     cbs = find_pat(glc.body_nodes(), '$cb = getattr($tr, $term.name, None)', {'tr': tparam})
     ok = bool(cbs) and has_pat(glc.body_nodes(), '$r[$term.name] = $cb', {'cb': cbs[0][1]['cb'], 'term': cbs[0][1]['term']})
